@@ -92,7 +92,12 @@ def check_coarsen(case, ctx: Ctx):
         if case.get("via") == "cli":
             from ..cliutil import run_cli
 
-            args = ["coarsen", base, "-k", k, "-c", case["chunksize"], "-n", case["nproc"], "-o", out_uri]
+            args = ["coarsen", base, "-k", k, "-o", out_uri]
+            # the largest chunk size stands for "option not given" (documented default: 10,000,000 pixels; one process)
+            if case["chunksize"] != 10**6:
+                args += ["-c", case["chunksize"]]
+            if case["nproc"] != 1 or case["chunksize"] != 10**6:
+                args += ["-n", case["nproc"]]
             if case["dest"] == "same-file":
                 args.append("-a")
             if case["cols"] is not None or any(aggd[c] != "sum" for c in cols):
